@@ -366,7 +366,7 @@ const c01SigLate = "C01/late-quota/event-routed-to-own-quota-while-default-holds
 // (and not at all after its deletion) but not in which of the two groups it sits until the
 // periodic migrate has run, so the placement is read from the manager: held by exactly one of
 // {default group, own quota} -> the model adopts that group and the usual oracle follows; held by
-// both, by none, still held after its deletion, or a reservation that did not take effect ->
+// both, by none, still held after its deletion, or a reserve/unreserve that did not take effect ->
 // violation with the narrow signature (one root cause: the event was routed by the label, not by
 // where the pod is held). A reservation may or may not survive the move (MigratePod carries it,
 // a label change does not): the observed flag is adopted.
@@ -411,6 +411,10 @@ func (e *c01Env) lateResolve(ev *c01LateEvent) {
 	}
 	if ev.kind == "reserve" && !obs {
 		e.knownDefect(c01SigLate, fmt.Sprintf("%s: the reservation did not take effect (the pod does not count as used)", where))
+		return
+	}
+	if ev.kind == "unreserve" && obs && p.node == "" {
+		e.knownDefect(c01SigLate, fmt.Sprintf("%s: the reservation was not released (the pod keeps counting as used)", where))
 		return
 	}
 	if p.reserved && p.node == "" && !p.term {
